@@ -17,4 +17,50 @@ theorem terminal_stage_fails_workflow (c : Cfg) (s : State) (retry : Nat)
     exact absurd this (by decide)
   unfold finalStatus
   simp only [hne, h, Bool.false_eq_true, ↓reduceIte]
+
+/-- FULL STATEMENT "SUCCEEDED ⇒ every top-level stage continuable" is false of model and code: a STOPPED stage
+    (failPipeline=False / TaskResult.stopped) with no incomplete sibling branch yields SUCCEEDED (finding F5).
+    Proved: SUCCEEDED is reported only if every stage is continuable or that STOPPED clause applies. -/
+theorem succeeded_means_all_continuable_partial (c : Cfg) (s : State) (retry : Nat)
+    (h : finalStatus c s retry = some .succeeded) :
+    (s.stages.map (·.status)).all (·.isContinuable) = true ∨ (s.stages.map (·.status)).contains .stopped = true := by
+  unfold finalStatus at h
+  simp only [] at h
+  (repeat' split at h) <;> simp_all
+
+/-- When CompleteWorkflow finishes a workflow unsuccessfully it pushes a CancelStage for EVERY stage that is still
+    RUNNING, in the same commit; when it reports SUCCEEDED no stage is RUNNING. -/
+theorem finished_has_no_running_stage (c : Cfg) (s : State) (id retry : Nat) (status : Status)
+    (hf : finalStatus c s retry = some status) (hlegal : Status.canTransition s.wfStatus status = true)
+    (hnc : s.wfStatus.isComplete = false) (hlen : s.stages.length = c.n) :
+    (status = .succeeded → ∀ st ∈ s.stages, st.status ≠ .running) ∧
+    (status ≠ .succeeded → ∀ i, i < c.n → (s.stage i).status = .running →
+        ∃ txn ∈ hCompleteWorkflow c s id retry, Eff.push (.cancelStage i) ∈ txn) := by
+  constructor
+  · intro hs st hst hrun
+    subst hs
+    rcases succeeded_means_all_continuable_partial c s retry hf with h | h
+    · have := (List.all_eq_true.mp h) st.status (List.mem_map_of_mem hst)
+      rw [hrun] at this; cases this
+    · -- STOPPED clause: `otherIncomplete` is false, so no stage is RUNNING
+      unfold finalStatus at hf
+      simp only [] at hf
+      (repeat' split at hf) <;> simp_all
+      all_goals (
+        obtain ⟨k, hk, hke⟩ := List.getElem_of_mem hst
+        have hsk : s.stage k = st := by simp [State.stage, List.getD_eq_getElem?_getD, hk, hke]
+        first
+        | (have h1 : ∀ x : StageSt, x ∈ s.stages → x.status.isContinuable = true := by assumption
+           have := h1 st hst
+           rw [hrun] at this
+           cases this)
+        | (have hinc : ∀ (x : Nat), x < c.n → ¬(s.stage x).status = Status.running ∧
+              ((s.stage x).status = Status.notStarted → allUpContinuable c s x = false) := by assumption
+           have := (hinc k (by omega)).1
+           rw [hsk] at this
+           exact this hrun))
+  · intro hns i hi hrun
+    simp only [hCompleteWorkflow, hnc, hf, hlegal]
+    simp [hns, hi, hrun]
+
 end Stab.Props.C05
